@@ -522,6 +522,13 @@ class DatasetProcessor:
 
         self.process_assigned_reads(sample, saves_file)
         if not self.args.read_assignments and not self.args.keep_tmp:
+            # lock files go first: an interrupted clean-up must not leave them vouching for deleted files
+            chr_ids = self.get_chr_list()
+            for lock_file in [saves_file + "_lock", read_group_lock_filename(sample)]:
+                if os.path.exists(lock_file):
+                    os.remove(lock_file)
+            clean_locks(chr_ids, saves_file, reads_collected_lock_file_name)
+            clean_locks(chr_ids, saves_file, reads_processed_lock_file_name)
             for f in glob.glob(saves_file + "_*"):
                 os.remove(f)
             for f in glob.glob(sample.read_group_file + "*"):
@@ -717,6 +724,8 @@ class DatasetProcessor:
                 for k, v in tsc.stats_dict.items():
                     transcript_stat_counter.stats_dict[k] += v
 
+        # merging removes per-chromosome files, so they can no longer be declared complete for --resume
+        clean_locks(chr_ids, dump_filename, reads_processed_lock_file_name)
         if not self.args.no_model_construction:
             self.merge_transcript_models(sample.prefix, aggregator, chr_ids, gff_printer)
             logger.info("Transcript model file " + gff_printer.model_fname)
